@@ -4,7 +4,7 @@
 ID=$1; WT=$2
 OUT=/verif/refactors/$ID
 mkdir -p $OUT
-( cd $WT && git diff -- circus > $OUT/patch.diff )
+( cd $WT && git add -A -- circus && git diff --cached -- circus > $OUT/patch.diff; git reset -q )
 echo "refactor $ID: $(cd $WT && git diff --stat -- circus | tail -1)"
 cd /repo && git apply $OUT/patch.diff || { echo "PATCH DOES NOT APPLY"; exit 3; }
 cd /verif
@@ -13,5 +13,5 @@ for p in C01 C02 C03 C04 C05 C06 C07 C08 C09 C10 C11 C12 C13 C14 C15 C16 C17 C18
   ./check $p --no-write > /tmp/rf_$p.log 2>&1; rc=$?
   if [ $rc -ne 0 ]; then DET="$DET $p(rc=$rc)"; echo "== $p rc=$rc"; grep -v conda /tmp/rf_$p.log | grep "^  R\|ANALYSIS" | cut -c1-330; fi
 done
-cd /repo && git checkout -- . && cd /verif
+cd /repo && git apply -R $OUT/patch.diff && git checkout -- . && cd /verif
 echo "checks alarming on refactor $ID:$DET"
